@@ -11,5 +11,10 @@ MCMessages == { <<VTuple(<<SmallInt(1), VAtom(A1)>>)>>,
                 <<VTuple(<<SmallInt(2), VAtom(A2), P>>), VAtom(A1)>>,
                 <<VTuple(<<SmallInt(6), P, VAtom(A3), VAtom(A2)>>), VList(<<VAtom(A3), VAtom(A4)>>, VNil)>>,
                 <<VTuple(<<SmallInt(3), VAtom(A4), VAtom(A4)>>)>>,
-                <<VTuple(<<SmallInt(5)>>)>> }
+                <<VTuple(<<SmallInt(5)>>)>>,
+                \* atoms wherever a term can hold one: module and function of an export, module of a fun (and its creator's node), map key and
+                \* value, node of a port and of a reference
+                <<VTuple(<<SmallInt(2), VAtom(A2), P>>),
+                  VTuple(<<VExport(VAtom(A1), VAtom(A3), 2), VFun(1, [i \in 1..16 |-> i], <<0,0,0,1>>, VAtom(A4), SmallInt(1), SmallInt(2), P, <<VAtom(A2)>>),
+                           VMap(<< <<VAtom(A1), VAtom(A4)>> >>), VPort(VAtom(A3), <<0,0,0,0,0,0,0,5>>, <<0,0,0,1>>, <<>>), VRef(VAtom(A2), <<0,0,0,1>>, <<<<0,0,0,7>>>>, <<>>)>>)>> }
 =============================================================================
